@@ -291,7 +291,9 @@ def post_mfdyn_add(ip, ctx, out):
              z3.And(T2.fn(z3.If(i < k, i, i + 1)) == old_t.fn(i), F2.fn(z3.If(i < k, i, i + 1)) == old_f.fn(i))))
     adds = ip.ghost.get('sys_adds', [])
     sysd = self_.fields['_system_dynamics']
-    ok = len(sysd) == ctx['nsys'] and len(adds) == ctx['nsys'] and all(a[0] is sysd[j] and a[2] is ctx['states'][j] for j, a in enumerate(adds))
+    # every system's Dynamics gets exactly one add, with ITS state (in whatever order the systems are visited)
+    ok = len(sysd) == ctx['nsys'] and len(adds) == ctx['nsys'] and all(
+        sum(1 for a in adds if a[0] is sysd[j]) == 1 and all(a[2] is ctx['states'][j] for a in adds if a[0] is sysd[j]) for j in range(ctx['nsys']))
     ip.prove('mfdyn/every-system-gets-its-own-state', z3.BoolVal(bool(ok)), {'adds': repr([(getattr(a[0], 'fields', {}).get('idx'), a[2]) for a in adds])})
     ip.prove('mfdyn/systems-get-the-same-time', z3.And([veq(a[1], t) for a in adds] + [z3.BoolVal(True)]))
 
